@@ -19,7 +19,7 @@ RULE = ("Every tree of depth <= D whose nodes are plain sync/async managers, @co
         "normally and once through an exception raised in the body (generator-based managers are then driven by throw/athrow), each in both context-analysis modes (trickery; set_trickery_enabled(False), where the exiting manager may be listed a second time). Shadow tree from the "
         "program's own event log: inner_stack = the manager generator's frames and their contexts unless exiting (then those "
         "frames are in the main series and inner_stack is None); ExitStack children = registered-and-not-yet-popped callbacks in "
-        "order, with obj / is_async / registration method in description; recursion into children. Each observation is repeated with the outermost frame hidden and pruning everything inward of it (an elaborate hook, as customize(hide=True, prune=True) installs): its context tree must be unfolded all the same. evaluations = contexts "
+        "order, with obj / is_async / registration method in description; recursion into children. Each observation is repeated with the outermost frame hidden and pruning everything inward of it (an elaborate hook, as customize(hide=True, prune=True) installs): its context tree must be unfolded all the same; and once more while an outer sibling context of each of these frames fails in its elaborate_context hook (one error per frame, everything else unchanged). evaluations = contexts "
         "compared; distinct_nontrivial = distinct (tree, observation point).")
 ASSUMPTIONS = ["push(cm) is indistinguishable from enter_context(cm) and push_async_exit(acm) from enter_async_context(acm) (contextlib stores the same bound __exit__)",
                "for bound-method and wrapped-callback registrations obj may be the callable or the object it is bound to / wraps"]
@@ -356,7 +356,35 @@ def _hide_and_prune(frame, next_inner):
     return None
 
 
+class PoisonError(Exception):
+    pass
+
+
+class Poison(object):
+    """an outer sibling context in every body frame; its elaborate_context hook fails while _HP['poison'] is set -
+    whatever happens to it, the contexts inward of it in the same frame are unfolded as usual"""
+
+    def __enter__(s):
+        return s
+
+    def __exit__(s, *a):
+        return False
+
+
+PO = Poison()
+
+
+def _poison_hook(mgr, context):
+    if _HP.get("poison"):
+        raise PoisonError("elaborate_context fails for the outer sibling")
+
+
 def ctxs_of(frame):
+    cs = _ctxs_of(frame)
+    return [c for c in cs if c.obj is not PO]
+
+
+def _ctxs_of(frame):
     """Frame.contexts; in referents mode the manager whose exit call is in progress may be listed twice (once found on
     the value stack, once as the is_exiting entry - C20 allows that one additional entry): the duplicate is dropped."""
     cs = list(frame.contexts)
@@ -525,31 +553,50 @@ def _run_program(roots, raise_in_body=False):
                 raise BodyError("leave every block through the exception path")
             return
         n = nodes[i]
-        if n.is_async:
-            async with n.mgr:
-                entered.append(n)
-                if n.kind == "AES":
-                    await populate(n, rt, 2)
-                await body(i + 1)
-            entered.remove(n)
-        else:
-            with n.mgr:
-                entered.append(n)
-                if n.kind == "ES":
-                    await populate(n, rt, 2)
-                await body(i + 1)
-            entered.remove(n)
+        with PO:
+            if n.is_async:
+                async with n.mgr:
+                    entered.append(n)
+                    if n.kind == "AES":
+                        await populate(n, rt, 2)
+                    await body(i + 1)
+                entered.remove(n)
+            else:
+                with n.mgr:
+                    entered.append(n)
+                    if n.kind == "ES":
+                        await populate(n, rt, 2)
+                    await body(i + 1)
+                entered.remove(n)
     # body() nests coroutine frames: frame i holds root i's context
     co = body(0)
 
+    if not _HP.get("poison_registered"):
+        stackscope.elaborate_context.register(Poison)(_poison_hook)
+        _HP["poison_registered"] = True
+
     def observe(tag):
+        observe1(tag, False)
+        # once more while the outer sibling context of every body frame fails to elaborate: everything else is unchanged
+        observe1(tag + "/sibling-fails", True)
+
+    def observe1(tag, poison):
         nobs[0] += 1
-        with warnings.catch_warnings(record=True) as w:
-            warnings.simplefilter("always")
-            st = stackscope.extract(co)
+        _HP["poison"] = poison
+        try:
+            with warnings.catch_warnings(record=True) as w:
+                warnings.simplefilter("always")
+                st = stackscope.extract(co)
+        finally:
+            _HP["poison"] = False
         if w:
             problems.append("%s: warning %s" % (tag, str(w[0].message)[:150]))
-        if st.error is not None:
+        if poison:
+            errs = [] if st.error is None else (list(st.error.exceptions) if hasattr(st.error, "exceptions") else [st.error])
+            nbody = sum(1 for f in st.frames for c in _ctxs_of(f) if c.obj is PO)
+            if len(errs) != nbody or not all(isinstance(e, PoisonError) for e in errs):
+                problems.append("%s: %d failing sibling contexts but errors %r" % (tag, nbody, errs))
+        elif st.error is not None:
             problems.append("%s: error %r" % (tag, st.error))
         body_frames = [f for f in st.frames if f.funcname == "body"]
         # root i's context is in body frame i (if that frame is still alive and the manager still active)
@@ -584,7 +631,7 @@ def _run_program(roots, raise_in_body=False):
                                 problems.append("%s: exiting AG generator frame has %d contexts, expected %d" % (tag, len(ctxs_of(x)), len(live)))
         # the same frame when a customization hides it and prunes everything inward of it (what customize(hide=True,
         # prune=True) does): its contexts must be unfolded exactly as before
-        if nodes and body_frames and nodes[0] in entered:
+        if not poison and nodes and body_frames and nodes[0] in entered:
             if not _HP["registered"]:
                 stackscope.elaborate_frame.register(body.__code__, _hide_and_prune)
                 _HP["registered"] = True
